@@ -624,17 +624,19 @@ func (r *primaryObjectsRetriever) retrievePrimaryDocs() ([]core.Doc, error) {
 	r.primaryScan.initFetcher(immutable.None[string]())
 
 	docs, err := r.collectDocs(0)
-	if err != nil {
-		return nil, err
-	}
 
-	err = r.primaryScan.fetcher.Close()
-	if err != nil {
-		return nil, err
-	}
-
+	// The scan gets its own fetcher back also when collecting failed: it is the one that the plan
+	// closes in the end, and a fetcher that stays open keeps an iterator of the transaction.
+	closeErr := r.primaryScan.fetcher.Close()
 	r.primaryScan.fetcher = oldFetcher
 	r.primaryScan.index = oldIndex
+
+	if err != nil {
+		return nil, err
+	}
+	if closeErr != nil {
+		return nil, closeErr
+	}
 
 	return docs, nil
 }
